@@ -39,12 +39,13 @@ def check(ctx, report):
     from .c10 import grease_classification
     grease_classification(ctx, report, 'C15.R3')
     # the fingerprint is a function of the message alone: nothing on the way from bytes to ja3 (hello, extensions, code point
-    # wrappers) keeps class level state, memo tables included (a memo keyed by part of the input answers for another input)
+    # wrappers) keeps class level state; a memo table is accepted when its key names every parameter the function uses, the class
+    # it dispatches on included (a memo keyed by part of what the entry depends on answers for another input)
     from .c19 import stateless_parsing
-    stateless_parsing(ctx, report, RULE='C15.R4', allow_memo=False,
+    stateless_parsing(ctx, report, RULE='C15.R4', allow_memo=True,
                       modules=('cryptoparser/tls/grease.py', 'cryptoparser/tls/subprotocol.py', 'cryptoparser/tls/extension.py',
                                'cryptoparser/tls/ciphersuite.py', 'cryptoparser/tls/algorithm.py', 'cryptoparser/tls/version.py'),
-                      title='no function between the wire bytes of a client hello and ja3 writes class level state (memo tables included)')
+                      title='no function between the wire bytes of a client hello and ja3 writes class level state (a memo table is accepted only when its key names everything the entry depends on)')
     # an extension parser that refuses content the protocol allows makes the generic array parser fall back to the unparsed
     # class: the hello still parses, but the groups / point formats that ja3 reads from the typed extension are gone
     from .. import rejections
